@@ -19,6 +19,12 @@ pub fn run(cfg: &RunCfg, agg: &Mutex<Agg>) {
     run_cases(agg, cfg, "fft-ifft-big", crate::count(cfg, 60, 1500), |cs, out| {
         transform_case(&mut Rng::new(cs), out, 16);
     });
+    // working sets of 64-160 MiB (where blocking / streaming strategies switch)
+    run_cases(agg, cfg, "fft-ifft-huge", if cfg.thorough { 16 } else { 3 }, |cs, out| {
+        let mut rng = Rng::new(cs);
+        let p = huge_transform(&mut rng);
+        transform_case_with(&mut rng, out, p, &EngineKind::fast());
+    });
     // the case index fixes the multiplier: 65536 consecutive cases cover every log_m
     run_indexed(agg, cfg, "mul", crate::count(cfg, 20_000, 400_000), |i, out| {
         mul_case(&mut Rng::new(crate::util::mix(cfg.seed, i)), (i % 65536) as u16, out);
@@ -160,8 +166,30 @@ pub fn apply_transform(kind: EngineKind, p: &TransformParams, buf: &mut [[u8; 64
     }
 }
 
+/// A transform whose working set (size x blocks x 64 bytes) is 64-160 MiB.
+pub fn huge_transform(rng: &mut Rng) -> TransformParams {
+    let n = *rng.pick(&[1u32, 2, 5, 10, 14]);
+    let size = 1usize << n;
+    let target = (64usize << 20) + rng.below(96 << 20);
+    TransformParams {
+        inverse: rng.chance(1, 2),
+        shard_len_64: target.div_ceil(64 * size) + rng.below(2),
+        shard_count: size,
+        pos: 0,
+        size,
+        truncated: if rng.chance(1, 2) { size } else { rng.range(1, size) },
+        skew_delta: if rng.chance(1, 2) { 0 } else { size * rng.below(65536 / size) },
+    }
+}
+
 fn transform_case(rng: &mut Rng, out: &mut CaseOut, max_log: u32) {
     let p = gen_transform(rng, max_log);
+    let mut engines = EngineKind::all();
+    engines.retain(|k| *k != EngineKind::Naive);
+    transform_case_with(rng, out, p, &engines);
+}
+
+fn transform_case_with(rng: &mut Rng, out: &mut CaseOut, p: TransformParams, engines: &[EngineKind]) {
     let input = gen_transform_input(rng, &p);
     let l = p.shard_len_64;
     let mut reference = input.clone();
@@ -169,7 +197,7 @@ fn transform_case(rng: &mut Rng, out: &mut CaseOut, max_log: u32) {
     let desc = format!("{p:?}");
     // which shards are contract-defined
     let defined_end = if p.inverse { p.size } else { p.truncated };
-    let engines: Vec<EngineKind> = EngineKind::all();
+    let engines: Vec<EngineKind> = std::iter::once(EngineKind::Naive).chain(engines.iter().copied()).collect();
     for kind in engines {
         let mut buf = input.clone();
         apply_transform(kind, &p, &mut buf);
@@ -208,7 +236,10 @@ fn transform_case(rng: &mut Rng, out: &mut CaseOut, max_log: u32) {
     }
     out.tag(if p.inverse { "ifft" } else { "fft" });
     out.tag(format!("log2size:{}", p.size.trailing_zeros()));
-    out.tag(format!("len64:{}", p.shard_len_64));
+    out.tag(if p.shard_len_64 > 4096 { "len64:>4096".to_string() } else { format!("len64:{}", p.shard_len_64) });
+    if p.size * p.shard_len_64 * 64 >= 64 << 20 {
+        out.tag("working-set>=64MiB");
+    }
     if p.truncated < p.size {
         out.tag("truncated");
     }
